@@ -81,6 +81,28 @@ def h_diag_state(env, N):
             env.goal('re-encoded_stabilizer[%d]' % i, b_and(arr_eq(enc.gs[i], gs[i]), eq(enc.ps[i], ps[i])))
 
 
+def h_sbrg_general(env, N, coefs):
+    """arbitrary (possibly non-commuting) Hamiltonian with symbolic term strings and concrete dyadic coefficients:
+    the effective Hamiltonian contains only I/Z strings and the input is untouched"""
+    M = Mods(env)
+    T = len(coefs)
+    g = env.bits('terms', (T, 2 * N))
+    for a in range(T):
+        env.assume(b_not(arr_eq(g[a], [0] * (2 * N))), 'terms are not the identity')
+        for b in range(a + 1, T):
+            env.assume(b_not(arr_eq(g[a], g[b])), 'terms are distinct strings')
+    cs = np.array([complex(c) for c in coefs]) if not env.symbolic else env.const([complex(c) for c in coefs])
+    H = M.pa.PauliPolynomial(g.copy(), env.const([0] * T) if env.symbolic else np.zeros(T, dtype=int)).set_cs(cs)
+    res = env.run(lambda: M.ci.SBRG(H))
+    env.goal('no_exception', b_not(res.raised))
+    if res.value is None:
+        return
+    heff, circ = res.value
+    env.goal('input_unchanged', b_and(arr_eq(H.gs, g), arr_eq(H.cs, cs)))
+    env.goal('heff_only_I_Z', AND(eq(heff.gs[k][2 * i], 0) for k in range(heff.gs.shape[0]) for i in range(N)))
+    env.goal('circuit_is_a_circuit', isinstance(circ, M.ci.CliffordCircuit))
+
+
 def h_sbrg(env, N, coefs):
     """commuting-term Hamiltonian with symbolic term strings and concrete coefficients: heff has only I/Z strings and
     circ.forward(H) equals heff as an operator (coefficient vector over the Pauli basis)"""
@@ -133,4 +155,6 @@ def jobs(tier):
         for coefs in ([2], [3, -1], [1, 2]) + (([1, -3, 2],) if tier == 'thorough' else ()):
             if len(coefs) <= 2 ** N - 1:
                 J.append(dict(harness=('c18', 'h_sbrg'), params=dict(N=N, coefs=list(coefs)), timeout_s=600, cost=50, max_paths=20000))
+    for N, coefs in ((1, [2, 1]), (2, [2, 1]), (2, [4, 1, 2])):
+        J.append(dict(harness=('c18', 'h_sbrg_general'), params=dict(N=N, coefs=list(coefs)), timeout_s=600, cost=50, max_paths=20000))
     return J
